@@ -302,6 +302,12 @@ class RIBFamily:
         if self.directed:
             walks += self.directed(ctx)
         walks = list(dict.fromkeys(walks))
+        cap = getattr(self, "MAX_WALKS", None)
+        if cap and len(walks) > cap:
+            # a driver that is slow per walk (waits for goroutines to settle) replays a seeded sample of the emitted sequences
+            res.notes.append(f"{len(walks)} input sequences emitted by TLC, a seeded sample of {cap} replayed")
+            walks = random.Random(ctx.seed).sample(walks, cap)
+            nexh = min(nexh, cap)
         return walks, nexh
 
     def record(self, ctx, walks, out):
@@ -1321,6 +1327,7 @@ def client_stats(path, prop):
 
 
 class ClientFamily(RIBFamily):
+    MAX_WALKS = 9000
     MC_MODULE = "GribiClient_MC"
     TRACE_MODULE = "GribiClientTrace"
     TRACE_SPEC = "CTSpec"
